@@ -25,6 +25,10 @@ CHECKS = {
          "Exploration: 120k generated inputs per family (quick; x30 thorough), arrays up to 60 elements (past the 21-element threshold of std's sort checks) with kind classes, inserted none/foreign elements, ties between differently printed equal keys, attribute paths k / k.j / k.0 on tagged elements so the permutation is fully observable.",
          "Trusted base: reference order of mval.rs. group_by with a missing attribute: error and discard both accepted (docs and MIGRATION.md disagree); keys colliding after stringification and explicit undefined elements are not generated.",
          "DESIGN.md section 4 C16"),
+ "C17": ("exhaustive built-in x receiver x keyword-argument matrix plus proptest-generated cells, each compared with a reference implementation or law where the documentation fixes the contract (Appendix B of DESIGN.md) and checked for totality everywhere; type-test partition laws stated on the engine's own answers",
+         "Exploration: all 36 filters + 17 tests + 2 functions x 59 receivers of every kind x every combination of a 35-value argument pool on each keyword (922k cells, enumerated completely in the quick tier), then 450k generated cells (x30 thorough) with Unicode text incl. special-casing characters, numerals in every base with prefixes/signs/fractions, boundary numbers, and well-typed arguments so the contracts (not only the error paths) are exercised.",
+         "Trusted base: the reference implementations in harness/src/props/c17.rs, written from docs/doc comments/unit-test tables; Rust std for to_uppercase/to_lowercase/parse::<f64>. Cells whose contract the documentation leaves open are totality-only (label spec:total, counted).",
+         "DESIGN.md section 4 C17, Appendix B"),
 }
 NOT_BUILT_REASON = "check not built yet (work in progress in this session); see DESIGN.md section 4 for the planned generated-input check"
 ALL = ["C%02d" % i for i in range(1, 21)]
